@@ -149,7 +149,12 @@ def inverse_pairs(repo: Repo, rep, P: str, rule: str):
         fp = [a.arg for a in fr_fn.args.args if a.arg != "self"][0]
         from .. import inline
         # helpers and predicates are resolved for an instance of exactly this kind
-        to_fn, fr_fn = inline.flatten(repo, ci, to_fn, exact=True), inline.flatten(repo, ci, fr_fn, exact=True)
+        # (public one-expression properties of the range classes — `raw_offset`, `span` — are read through as well)
+        try:
+            props = tuple(sorted({nm for k_ in repo.mro(ci) for nm in k_.getters if nm not in ("min", "max")}))
+        except Exception:
+            props = ()
+        to_fn, fr_fn = inline.flatten(repo, ci, to_fn, exact=True, also=props), inline.flatten(repo, ci, fr_fn, exact=True, also=props)
         te, fe = _single_return(to_fn), _single_return(fr_fn)
         con_t, con_f = f"{rel}:{to_owner.name}.to_raw_value", f"{rel}:{fr_owner.name}.from_raw_value"
         if te is None or fe is None:
@@ -611,6 +616,19 @@ def pattern_value(repo: Repo, rep, P: str):
                 return alg.Rat(alg.Poly.sym("min"))
             if norm(e) == f"{tvar}.max":
                 return alg.Rat(alg.Poly.sym("max"))
+            if isinstance(e, ast.Attribute) and isinstance(e.value, ast.Name) and e.value.id == tvar:
+                # a one-expression property of the range classes (`span = max − min`), read with the range in place of self
+                try:
+                    rng_ = repo.cls("Range", module="rv.controller")
+                    r_ = repo.lookup(rng_, e.attr)
+                    if r_ is not None and r_[1] == "property" and r_[2][0] is not None:
+                        body_ = inline.as_expression(inline.normalize(repo, r_[0], r_[2][0]))
+                        if body_ is not None:
+                            return alg.to_rat(inline._Rename({"self": ast.Name(id=tvar, ctx=ast.Load())}).visit(copy.deepcopy(body_)), leaf)
+                except alg.NotAlgebraic:
+                    raise
+                except Exception:
+                    pass
             if isinstance(e, (ast.Name, ast.Attribute)):
                 try:
                     c = repo.fold(e, ci=ctl)             # module / class constant (e.g. the 0x8000 scale given a name)
